@@ -295,7 +295,18 @@ class Session:
             log[-1]["pout"] = {p: qnum(params.get(p), U) for p in PARAM_LETTERS}
             return params
 
+        if style == 1:
+            # registered and removed as a BOUND METHOD (added after seed C20i: removal by identity): every access to obj.on_move
+            # is a new object that is equal to, but not the same as, the one that was registered
+            class _Obj:
+                def on_move(self, origin, target, params, state):
+                    return probe_hook(origin, target, params, state)
+            self.probe_obj = _Obj()
         return probe_hook
+
+    def _the_probe_hook(self):
+        obj = getattr(self, "probe_obj", None)
+        return obj.on_move if obj is not None else self.probe_hook
 
     # ------------------------------------------------------------------ calls
     def _args(self, d):
@@ -408,11 +419,11 @@ class Session:
             if self.probe_hook is None:
                 self.probe_hook = self._make_probe_hook()
             self.probe_on = True
-            return g.add_hook(self.probe_hook)
+            return g.add_hook(self._the_probe_hook())
         if c == "remove_probe_hook":
             self.probe_on = False
             if self.probe_hook is not None:
-                return g.remove_hook(self.probe_hook)
+                return g.remove_hook(self._the_probe_hook())
             return None
         if c == "mh_enter":
             # `with g.move_hook(h):` opened; hooks added or removed inside the block must survive its end
